@@ -243,6 +243,13 @@ func runC05(t *testing.T, r *engine.Run) {
 			return
 		}
 		// oracle 2: nothing stays warming
+		if c.warmPending {
+			for _, l := range c.sentLog[max(0, len(c.sentLog)-8):] {
+				r.Logf("  %s sent: %s", c.name, l)
+			}
+			r.Fail("c05.subscription_unanswered", wd.everTags()+"|warming", "client %s (delta=%v): on its current stream the endpoint request preceded the cluster request; after the cluster response it asked for the endpoints of the warming clusters again and was never answered (clusters would stay warming)", c.name, c.delta)
+			return
+		}
 		if u := c.unanswered(); len(u) > 0 {
 			for _, l := range c.sentLog[max(0, len(c.sentLog)-8):] {
 				r.Logf("  %s sent: %s", c.name, l)
